@@ -6,7 +6,7 @@ use crate::Result;
 use roxmltree::Node;
 
 fn extract_limit(bounds: &Node, tag_name: &str) -> Result<Option<RecordValue>> {
-    if let Some(tag) = bounds.descendants().find(|n| n.has_tag_name(tag_name)) {
+    if let Some(tag) = bounds.descendants().find(|n| crate::xml::is_tag(n, tag_name)) {
         let type_str = tag
             .attribute("type")
             .invalid_err(format!("Cannot find type attribute of limit '{tag_name}'"))?;
